@@ -196,17 +196,42 @@ Definition canonical (b : list N) : bool :=
 
 Definition no_panic (o : aobs) : bool := negb (ao_cls o =? 9).
 
-(* a: assembled program -> static check passes, disassembly succeeds, re-assembly (type
-   tracking off) gives the same bytes; re-assembly as is gives the same bytes or is rejected *)
-Definition spec_a (v : N) (asm : aobs) (chk : N) (d : dobs) (re nt : aobs) : bool :=
-  no_panic asm &&
+(* a: assembled program -> static check passes, disassembly succeeds (a_pre); re-assembly
+   (type tracking off) gives the same bytes, re-assembly as is gives the same bytes or is
+   rejected (a_post) *)
+Definition spec_a_pre (v : N) (asm : aobs) (chk : N) (d : dobs) (re nt : aobs) : bool :=
+  no_panic asm && no_panic re && no_panic nt &&
   (if ao_cls asm =? 0 then
-     ao_saltok asm &&
-     ((chk =? 0) || ((chk =? 11) && (v <? 4))) &&
-     (do_cls d =? 0) &&
-     (ao_cls nt =? 0) && bytes_eqb (ao_bytes nt) (ao_bytes asm) && ao_saltok nt &&
-     no_panic re && (if ao_cls re =? 0 then bytes_eqb (ao_bytes re) (ao_bytes asm) else true)
+     ao_saltok asm && ((chk =? 0) || ((chk =? 11) && (v <? 4))) && (do_cls d =? 0)
    else true).
+Definition spec_a_post (asm re nt : aobs) : bool :=
+  if ao_cls asm =? 0 then
+    (ao_cls nt =? 0) && bytes_eqb (ao_bytes nt) (ao_bytes asm) && ao_saltok nt &&
+    (if ao_cls re =? 0 then bytes_eqb (ao_bytes re) (ao_bytes asm) else true)
+  else true.
+Definition spec_a (v : N) (asm : aobs) (chk : N) (d : dobs) (re nt : aobs) : bool :=
+  spec_a_pre v asm chk d re nt && spec_a_post asm re nt.
+
+(* signatures of the recorded deviations (KNOWN_FINDINGS.txt decides whether they are listed) *)
+(* c33_deadcode_label_lost: the source carries a label that nothing references (and that is
+   not at a proto), the re-assembly of the disassembly is rejected, and the model -- which
+   has the dead-code rule of asmIntCBlock / asmByteCBlock -- predicts exactly that *)
+Definition sig_deadcode (v : N) (p : list sinstr) (labs : list nat)
+           (m_round : option (list nat * ares)) (asm nt : aobs) : bool :=
+  (ao_cls asm =? 0) && (ao_cls nt =? 1) &&
+  match m_round with Some (_, AReject) => true | _ => false end &&
+  existsb (fun k => negb (existsb (Nat.eqb k) (c_dis_labels v p))) labs.
+
+(* c33_line_too_long: some constant list disassembles to a line of >= 65536 characters
+   ("<name>" + sum (" 0x" + 2 len)), and the re-assembly is rejected *)
+Definition dis_line_len (v : N) (si : sinstr) : N :=
+  match spec_at gen_tbl v (s_op si) (s_sub si), s_imms si with
+  | Some op, [SBytess l] =>
+      N.of_nat (String.length (os_name op)) + fold_right (fun bs acc => 3 + 2 * nlen bs + acc) 0 l
+  | _, _ => 0
+  end.
+Definition sig_longline (v : N) (p : list sinstr) (asm nt : aobs) : bool :=
+  (ao_cls asm =? 0) && (ao_cls nt =? 1) && existsb (fun si => 65536 <=? dis_line_len v si) p.
 
 (* d: whatever re-assembles is a fixpoint of disassemble/assemble, and canonical bytes
    re-assemble to themselves *)
@@ -227,7 +252,12 @@ Definition check_a (v : N) (salt : saltmode) (labs : list nat) (p : list sinstr)
   let m_round := if accepted then model_round (ao_bytes asm) (do_ocf d) nt else None in
   let corr := agree m_asm asm && (if accepted then round_agree m_round d nt else true) in
   let nontrivial := accepted && negb (match p with [] => true | _ => false end) in
-  verdict (spec_a v asm chk d re nt) corr nontrivial (TL [ares_term m_asm; round_term m_round]).
+  let detail := TL [ares_term m_asm; round_term m_round] in
+  if spec_a_pre v asm chk d re nt && negb (spec_a_post asm re nt) && agree m_asm asm then
+    if sig_longline v p asm nt then v_known "c33_line_too_long" detail
+    else if sig_deadcode v p labs m_round asm nt then v_known "c33_deadcode_label_lost" detail
+    else v_viol detail
+  else verdict (spec_a v asm chk d re nt) corr nontrivial detail.
 
 Definition check_d (b : list N) (chk : N) (d : dobs) (re nt : aobs) (fixcls : N) (fixb : list N)
   : term :=
